@@ -45,6 +45,8 @@ pub fn get_memory_region(
         .checked_add(size)
         .context_code(EVM_CONTRACT_ILLEGAL_MEMORY_ACCESS, "new memory size exceeds max u32")?;
 
+    #[cfg(feature = "verif-hooks")]
+    crate::interpreter::verif::on_mem(new_size as usize)?;
     mem.grow(new_size as usize);
 
     Ok(Some(MemoryRegion {
